@@ -383,6 +383,9 @@ func (a *ioAnalysis) swallowPath(e ssa.Value, start *ssa.BasicBlock, ifBlk *ssa.
 			case *ssa.Return:
 				ei := errIndex(b.Parent().Signature)
 				if ei < 0 {
+					if yieldReturnsError(b) {
+						return "" // `return err` inside the body of a range-over-func loop
+					}
 					return fmt.Sprintf("return without error result at %s", a.c.pos(ins.Pos()))
 				}
 				for _, v := range retValues(ins, ei) {
@@ -580,6 +583,9 @@ func runC13(c *Ctx) {
 
 	// ---- sticky rule
 	c.stickyRule(scannerT)
+	// ---- a look-ahead cut short by a fault is not indexed blindly (after seed C13-p1)
+	c.shortPeekRule("IO-SHORTPEEK", scannerT)
+	c.floor("IO-SHORTPEEK", 3)
 	// ---- bufio.Scanner loops are followed by Err()
 	c.scannerErrRule()
 	// ---- only clean EOF ends a run
@@ -845,20 +851,41 @@ func (c *Ctx) registrationLast() {
 		}
 	})
 	c.check(okOne, "IO-REGISTER", c.fname(rd), "exactly one registered font demanded", rd.Pos(), "len(FontDirectory) != 1 → error", "type1.Read no longer rejects a run that registered no (or several) fonts")
-	// template: definefont after the CharStrings block
+	// template: definefont after the CharStrings block.  The block is the first repetition that
+	// follows the text `/CharStrings` and emits binary entries (`RD`), whatever it ranges over (the map
+	// itself, a sorted list of its entries, …); the registration must come after its end and nowhere
+	// before.
 	t := c.fontTemplate()
-	txt := t.flatText()
-	iCS := strings.Index(txt, "/CharStrings")
-	iDF := strings.Index(txt, "definefont")
-	iRange := strings.LastIndex(txt, "⟦range .CharStrings⟧")
-	iEnd := -1
-	if iRange >= 0 {
-		iEnd = strings.Index(txt[iRange:], "⟦end⟧")
-		if iEnd >= 0 {
-			iEnd += iRange
+	items := t.allItems()
+	iCS, iRange, iEnd, iDF := -1, -1, -1, -1
+	for i, it := range items {
+		switch {
+		case it.action == "" && iCS < 0 && strings.Contains(it.text, "/CharStrings"):
+			iCS = i
+			if k := strings.Index(it.text, "definefont"); k >= 0 && iDF < 0 {
+				iDF = i
+			}
+		case it.action == "" && iDF < 0 && strings.Contains(it.text, "definefont"):
+			iDF = i
+		case iCS >= 0 && iRange < 0 && strings.HasPrefix(it.action, "range "):
+			// the repetition must emit the entries: its body contains the `RD` operator
+			emits := false
+			for _, b := range items[i+1:] {
+				if b.node == it.node && b.action == "end" {
+					break
+				}
+				if b.action == "" && strings.Contains(b.text, " RD ") {
+					emits = true
+				}
+			}
+			if emits {
+				iRange = i
+			}
+		case iRange >= 0 && iEnd < 0 && it.action == "end" && it.node == items[iRange].node:
+			iEnd = i
 		}
 	}
-	c.check(iCS >= 0 && iDF > iCS && iEnd >= 0 && iDF > iEnd, "IO-REGISTER", "font template", "definefont follows the CharStrings block", token.NoPos, "definefont is the last registration step of the written program",
+	c.check(iCS >= 0 && iRange > iCS && iEnd > iRange && iDF > iEnd, "IO-REGISTER", "font template", "definefont follows the CharStrings block", token.NoPos, "definefont is the last registration step of the written program",
 		"the font program template calls definefont before all charstrings are written: a truncated file could register an incomplete font")
 }
 
